@@ -3,6 +3,7 @@ import Driver.Rec
 import Driver.Lapper2
 import Driver.Coverage
 import Driver.Text
+import Driver.Sort
 /-!
 `bvdriver FILE` (or stdin): one case per line, answers one verdict line per case.
 -/
@@ -27,6 +28,8 @@ def handle (line : String) : String :=
       | "C03" => handleC03 inp obs
       | "C12" => handleC12 inp obs
       | "C04" => handleC04 inp obs
+      | "C10" => handleC10 inp obs
+      | "C01" => handleC01 inp obs
       | "C13" => handleC13 inp obs
       | "C14" => handleC14 inp obs
       | "C07" => handleC07 inp obs
